@@ -2440,7 +2440,13 @@ func (ctx Ctx) funcDecl(d *ast.FuncDecl) coq.FuncDecl {
 		if !ok {
 			ctx.unsupported(rcvr, "unexpected function receiver type: %s", ctx.printGo(rcvrTy))
 		}
-		fd.Name = coq.MethodName(ident.Name, d.Name.Name)
+		typeName := ident.Name
+		if named, ok := ctx.typeOf(rcvrTy).(*types.Named); ok {
+			// the receiver may be written with an alias of the type that the
+			// calls of the method are named after
+			typeName = named.Obj().Name()
+		}
+		fd.Name = coq.MethodName(typeName, d.Name.Name)
 		fd.Args = append(fd.Args, ctx.field(rcvr))
 	}
 
